@@ -270,7 +270,8 @@ def run_case(case):
         # snapshot before draining, then drain to quiescence
         mid = [snapshot(i["actor"]) for i in insts]
         n_mid = [len(l) for l in logs]
-        for _ in range(200 + 50 * nbad[0]):       # every malformed request costs one RESTART_DELAY (2 s) of virtual time
+        slow_ms = sum(st[3] for st in case["steps"] if st[0] == "req" and st[2].startswith("sleep") and st[3] > 200)
+        for _ in range(200 + 50 * nbad[0] + slow_ms // 50):   # every malformed request costs one RESTART_DELAY (2 s) of virtual time; slow distributions run to their end
             for _ in range(6):
                 await asyncio.sleep(0)
             consumed = [sum(1 for e in l if e[0] == "A" or (e[0] == "R" and e[1] == "bad")) for l in logs]
@@ -426,6 +427,8 @@ def gen_case(rng, ngroups=None, nreq=None):
     values = rng.choice([None, None, [5], [5, 6], [5, 6], [5, 6, 7]])
     restarts = rng.random() < 0.3
     sharing = rng.random() < 0.3      # the caller keeps one mutable id set per group and updates it in place
+    # distributions in flight for much longer than api_power_request_timeout (5 s here): 16 s, 20 s, 61 s
+    slow = rng.random() < 0.2
     steps = []
     sent = 0
     while sent < n:
@@ -438,7 +441,10 @@ def gen_case(rng, ngroups=None, nreq=None):
                 mode = rng.choice(["sleep_ok", "sleep_exc", "instant_ok"])
             else:
                 mode = rng.choice(MODES)
-            st_ = ["req", g, mode, rng.choice([1, 10, 10, 50, 200])] + ([rng.choice(values)] if values else [])
+            dur = rng.choice([1, 10, 10, 50, 200])
+            if slow and rng.random() < 0.3:
+                dur = rng.choice([15001, 16000, 20000, 61000])
+            st_ = ["req", g, mode, dur] + ([rng.choice(values)] if values else [])
             if sharing and rng.random() < 0.7:
                 st_ = st_ + [None] * (5 - len(st_)) + ["shared"]
             steps.append(st_)
@@ -457,6 +463,8 @@ def gen_case(rng, ngroups=None, nreq=None):
             steps.append(["rel", rng.randint(1, k)])
         elif x < 0.92:
             steps.append(["yield", rng.choice([1, 1, 2, 3, 5])])
+        elif slow and x > 0.97:
+            steps.append(["sleep", rng.choice([15001, 16000, 61000])])     # gates stay closed meanwhile
         else:
             steps.append(["sleep", rng.choice([1, 10, 49, 50, 51, 200])])
     return {"steps": steps}
@@ -494,6 +502,9 @@ def boundary_cases():
         {"steps": [R(1, "gate_exc"), Y(), R(1, "gate_ok"), Y(), ["rel", 1], Y(), ["rel", 1], Y()]},
         {"steps": [R(1, "instant_exc"), R(1, "instant_ok"), R(1, "instant_exc"), R(1, "instant_ok")]},
         {"steps": [R(1, "gate_ok"), Y(), R(2, "gate_ok"), R(3, "instant_ok"), R(2, "sleep_exc", 50), Y(), ["rel", 2], ["sleep", 60]]},
+        # a distribution in flight for longer than three API time-outs (5 s each), a request waiting behind it
+        {"steps": [R(1, "gate_ok"), Y(), R(1, "instant_ok"), ["sleep", 16000], ["rel", 1], Y(), R(1, "instant_ok"), Y()]},
+        {"steps": [R(1, "sleep_ok", 20000), R(1, "instant_ok"), R(2, "sleep_exc", 61000), R(2, "gate_ok"), ["sleep", 21000], R(1, "instant_ok")]},
         # a request arriving between the end of the task and its completion callback
         {"steps": [R(1, "gate_ok"), Y(), ["rel", 1], R(1, "gate_ok"), Y(1), R(1, "instant_ok")]},
         {"steps": [R(1, "sleep_ok", 10), R(1, "sleep_exc", 10), ["sleep", 10], R(1, "sleep_ok", 10), ["sleep", 10], R(2, "instant_ok")]},
